@@ -78,6 +78,7 @@ Definition m_truthy (v : val) (w : world) : res (bool * world) :=
 (* numpy arrays: payload as a (nested) list; [ul] forgets the array tag, [arr] puts it on a list result *)
 Definition ul (v : val) : val := match v with VArr l => VList l | _ => v end.
 Definition arr (v : val) : val := match v with VList l => VArr l | _ => v end.
+Definition is_arr (v : val) : bool := match v with VArr _ => true | _ => false end.
 Definition is_seq (v : val) : bool := match v with VList _ | VArr _ => true | _ => false end.
 Definition lift_x (r : res (xreal * world)) : res (val * world) := do xw <- r; Ok (VNum (fst xw), snd xw).
 Definition num2 (f : xreal -> xreal -> world -> res (xreal * world)) (a b : val) (w : world) : res (val * world) :=
@@ -242,6 +243,50 @@ Fixpoint col_set (rows : list val) (j : nat) (col : list val) : res (list val) :
   | _, _ => Exc "ValueError"
   end.
 Definition retag (like : val) (l : list val) : val := match like with VArr _ => VArr l | VTuple _ => VTuple l | _ => VList l end.
+(* numpy: comparison of an array with a scalar / an array, elementwise; every element test is a decision *)
+Fixpoint cmp_map (fuel : nat) (o : cmpop) (a b : val) (w : world) {struct fuel} : res (val * world) :=
+  match fuel with O => Stuck "cmp depth" | S f =>
+  let map_l := fix map_l (l : list val) (g : val -> world -> res (val * world)) (w : world) : res (list val * world) :=
+      match l with [] => Ok ([], w) | x :: r => do xw <- g x w; do rw <- map_l r g (snd xw); Ok (fst xw :: fst rw, snd rw) end in
+  let zip_l := fix zip_l (l1 l2 : list val) (w : world) : res (list val * world) :=
+      match l1, l2 with
+      | [], [] => Ok ([], w)
+      | x :: r, y :: s => do xw <- cmp_map f o x y w; do rw <- zip_l r s (snd xw); Ok (fst xw :: fst rw, snd rw)
+      | _, _ => Exc "ValueError" end in
+  match seq_payload a, seq_payload b with
+  | Some la, Some lb => do r <- zip_l la lb w; Ok (VArr (fst r), snd r)
+  | Some la, None => do r <- map_l la (fun x w => cmp_map f o x b w) w; Ok (VArr (fst r), snd r)
+  | None, Some lb => do r <- map_l lb (fun y w => cmp_map f o a y w) w; Ok (VArr (fst r), snd r)
+  | None, None => do r <- do_cmp o a b w; Ok (VBool (fst r), snd r)
+  end end.
+(* np.where(mask): indices of the True entries, row-major; one index array per axis *)
+Fixpoint where1 (l : list val) (i : Z) : res (list val) :=
+  match l with
+  | [] => Ok []
+  | VBool true :: r => do t <- where1 r (i + 1)%Z; Ok (VInt i :: t)
+  | VBool false :: r => where1 r (i + 1)%Z
+  | _ => Stuck "where: non-boolean mask" end.
+Fixpoint where2 (rows : list val) (i : Z) : res (list val * list val) :=
+  match rows with
+  | [] => Ok ([], [])
+  | r :: t => match seq_payload r with
+              | Some l => do js <- where1 l 0%Z; do rest <- where2 t (i + 1)%Z; Ok ((map (fun _ => VInt i) js ++ fst rest)%list, (js ++ snd rest)%list)
+              | None => Stuck "where: ragged mask" end
+  end.
+Definition is_nested (l : list val) : bool := match l with x :: _ => match seq_payload x with Some _ => true | None => false end | [] => false end.
+Definition np_where (m : val) : res val :=
+  match seq_payload m with
+  | Some l => if is_nested l then do r <- where2 l 0%Z; Ok (VTuple [VArr (fst r); VArr (snd r)])
+              else do r <- where1 l 0%Z; Ok (VTuple [VArr r])
+  | None => Stuck "where: mask" end.
+Fixpoint take_idx (l : list val) (idx : list val) : res (list val) :=
+  match idx with
+  | [] => Ok []
+  | VInt z :: r => if (z <? 0)%Z then Stuck "negative index"
+                   else match nth_error l (Z.to_nat z) with Some v => do t <- take_idx l r; Ok (v :: t) | None => Exc "IndexError" end
+  | _ => Stuck "fancy index: non-integer" end.
+Fixpoint flatten2 (l : list val) : list val :=
+  match l with [] => [] | x :: r => match seq_payload x with Some xs => (xs ++ flatten2 r)%list | None => x :: flatten2 r end end.
 Definition subscript (c i : val) : res val :=
   match c, i with
   | VList l, VInt z | VTuple l, VInt z | VArr l, VInt z =>
@@ -260,6 +305,7 @@ Definition subscript (c i : val) : res val :=
                                         | None => Exc "IndexError" end
                             | None => Exc "IndexError" end
            | _ => Stuck "subscript" end
+  | VArr l, VTuple [VArr idx] | VArr l, VArr idx => do r <- take_idx l idx; Ok (VArr r)     (* a[np.where(mask)] on a 1-d array *)
   | VObj _ _, _ => Stuck "subscript"
   | _, VObj _ _ =>                                            (* 1-d slice a[lo:hi] *)
       match seq_payload c with
@@ -337,8 +383,19 @@ Definition builtin (name : string) (args : list val) (kws : list (string * val))
   | "np.sum" | "sum" => Some (match args with [a] => do l <- as_list a; vsum_l l w | _ => Exc "TypeError" end)
   | "np.zeros_like" => Some (pure_ (match args with [a] => do l <- as_list a; Ok (VArr (map (fun _ => VNum (Fin 0)) l)) | _ => Exc "TypeError" end) w)
   | "np.ones_like" => Some (pure_ (match args with [a] => do l <- as_list a; Ok (VArr (map (fun _ => VNum (Fin 1)) l)) | _ => Exc "TypeError" end) w)
-  | "min" | "np.min" => Some (pure_ (match args with [a] => do l <- as_list a; fold_num Rmin l | _ :: _ :: _ => fold_num Rmin args | _ => Stuck "min: arity" end) w)
-  | "max" | "np.max" => Some (pure_ (match args with [a] => do l <- as_list a; fold_num Rmax l | _ :: _ :: _ => fold_num Rmax args | _ => Stuck "max: arity" end) w)
+  | "np.where" => Some (pure_ (match args with [m] => np_where m | _ => Stuck "np.where: arity" end) w)
+  | "np.shape" => Some (pure_ (match args with
+                     | [a] => match seq_payload a with
+                              | Some l => match l with
+                                          | x :: _ => match seq_payload x with Some xs => Ok (VTuple [VInt (Z.of_nat (length l)); VInt (Z.of_nat (length xs))])
+                                                                              | None => Ok (VTuple [VInt (Z.of_nat (length l))]) end
+                                          | [] => Ok (VTuple [VInt 0]) end
+                              | None => Stuck "np.shape" end
+                     | _ => Stuck "np.shape" end) w)
+  | "np.abs" => Some (match args with [a] => do r <- map1 3 (fun x w => match x with Fin v => Ok (Fin (Rabs v), w) | NaN => Ok (NaN, w) | _ => Ok (PosInf, w) end) (ul a) w;
+                                              Ok ((if is_seq a then arr (fst r) else fst r), snd r) | _ => Exc "TypeError" end)
+  | "min" | "np.min" => Some (pure_ (match args with [a] => do l <- as_list a; fold_num Rmin (flatten2 l) | _ :: _ :: _ => fold_num Rmin args | _ => Stuck "min: arity" end) w)
+  | "max" | "np.max" => Some (pure_ (match args with [a] => do l <- as_list a; fold_num Rmax (flatten2 l) | _ :: _ :: _ => fold_num Rmax args | _ => Stuck "max: arity" end) w)
   | "isinstance" => Some (pure_ (match args with
                      | [VList _; VMod "list"] => Ok (VBool true) | [_; VMod "list"] => Ok (VBool false)
                      | [VInt _; VMod "int"] => Ok (VBool true) | [VBool _; VMod "int"] => Ok (VBool true) | [_; VMod "int"] => Ok (VBool false)
@@ -571,7 +628,11 @@ Fixpoint eval (fuel : nat) (e : expr) (ρ : env) (w : world) {struct fuel} : res
   | EUn USub a => do aw <- eval f a ρ w;
                   match fst aw with VInt z => Ok (VInt (- z), snd aw) | VNum x => Ok (VNum (xneg x), snd aw) | _ => Exc "TypeError" end
   | EUn UNot a => do aw <- eval f a ρ w; do t <- m_truthy (fst aw) (snd aw); Ok (VBool (negb (fst t)), snd t)
-  | ECmp o a b => do aw <- eval f a ρ w; do bw <- eval f b ρ (snd aw); do r <- do_cmp o (fst aw) (fst bw) (snd bw); Ok (VBool (fst r), snd r)
+  | ECmp o a b => do aw <- eval f a ρ w; do bw <- eval f b ρ (snd aw);
+                  if is_arr (fst aw) || is_arr (fst bw) then
+                    match o with CIs | CIsNot | CIn | CNotIn => do r <- do_cmp o (fst aw) (fst bw) (snd bw); Ok (VBool (fst r), snd r)
+                               | _ => cmp_map 4 o (fst aw) (fst bw) (snd bw) end
+                  else do r <- do_cmp o (fst aw) (fst bw) (snd bw); Ok (VBool (fst r), snd r)
   | EBoolOp o l =>
       (fix go (l : list expr) (w : world) : res (val * world) :=
          match l with
